@@ -180,6 +180,17 @@ def regenerate(ctx, need_reggen=False):
             if rc != 0:
                 ctx.oblige("tie:T1 reggen run", False, out[-2000:])
                 ok = False
+        if ok and ctx.prop in ("C04", "C05"):
+            # T1 for the payload schemas: reflection over the linked types -> lean/OcppGen/Schemas.lean
+            rc, out = sh([HARNESS, "monitor", "schemas_lean", "1", "quick"], env=GOENV, timeout=300)
+            try:
+                src = json.loads(out)["lean"]
+                path = os.path.join(LEAN, "OcppGen", "Schemas.lean")
+                if not os.path.exists(path) or open(path).read() != src:
+                    open(path, "w").write(src)
+            except Exception:
+                ctx.oblige("tie:T1 schemas -> OcppGen/Schemas.lean", False, out[-500:])
+                ok = False
     return ok
 
 
